@@ -40,13 +40,22 @@ type c02Input struct {
 	Blank bool         `json:"blank"` // blank-line separators instead of line breaks
 	Lists [][]c02Chunk `json:"lists"`
 	Ops   []c02Op      `json:"ops"`
+	// Tails (cbody / commbody): what stands between the last statement of clause body k and the next
+	// clause, part of the frame and not of any chunk: "" or an empty line and a comment hanging at
+	// statement indent (the decorator gives it to the clause: End = ["\n", "\n", "// ..."])
+	Tails []string `json:"tails,omitempty"`
 }
 
 // qelt / qarg: literal elements and call arguments that are bare qualified identifiers (q.Name), in a
 // file that imports "q", decorated with the goast resolver and printed with import management: the
 // hand-written collapse (decorateSelectorExpr) and expansion (restoreIdent) carry the chunk's
 // comments and spacing
-var c02Kinds = []string{"stmt", "decl", "spec", "field", "method", "elt", "arg", "case", "import", "qelt", "qarg"}
+// cbody / commbody: the statement lists of two case / comm clause bodies (a clause has no closing
+// token: what ends the line of its last statement is the statement's own After space or the clause's
+// End decorations)
+var c02Kinds = []string{"stmt", "decl", "spec", "field", "method", "elt", "arg", "case", "import", "qelt", "qarg", "cbody", "commbody"}
+
+func c02ClauseBody(kind string) bool { return kind == "cbody" || kind == "commbody" }
 
 func c02Managed(kind string) bool { return kind == "qelt" || kind == "qarg" }
 
@@ -59,6 +68,8 @@ func c02Elem(kind string, c c02Chunk) (string, string) {
 	switch kind {
 	case "stmt":
 		return c.Name + call, "\t"
+	case "cbody", "commbody":
+		return c.Name + call, "\t\t"
 	case "decl":
 		return "var " + c.Name + " = f" + call, ""
 	case "spec":
@@ -155,6 +166,12 @@ func c02Source(in c02Input, lists [][]c02Chunk) string {
 		}
 		return strings.Join(parts, sep)
 	}
+	tail := func(k int) string {
+		if k < len(in.Tails) {
+			return in.Tails[k]
+		}
+		return ""
+	}
 	switch in.Kind {
 	case "stmt":
 		return "package p\n\nfunc fA() {\n" + sep + body(0) + sep + "}\n\nfunc fB() {\n" + sep + body(1) + sep + "}\n"
@@ -178,6 +195,10 @@ func c02Source(in c02Input, lists [][]c02Chunk) string {
 		return "package p\n\nfunc f() {\n\tswitch xA {\n" + body(0) + "\t}\n\tswitch xB {\n" + body(1) + "\t}\n}\n"
 	case "import":
 		return "package p\n\nimport (\n" + body(0) + ")\n\nimport (\n" + body(1) + ")\n"
+	case "cbody":
+		return "package p\n\nfunc f() {\n\tswitch x {\n\tcase 1:\n" + sep + body(0) + tail(0) + "\tcase 2:\n" + sep + body(1) + tail(1) + "\tdefault:\n\t\tz()\n\t}\n}\n"
+	case "commbody":
+		return "package p\n\nfunc f() {\n\tselect {\n\tcase <-c1:\n" + sep + body(0) + tail(0) + "\tcase c2 <- 1:\n" + sep + body(1) + tail(1) + "\tdefault:\n\t\tz()\n\t}\n}\n"
 	}
 	return ""
 }
@@ -299,6 +320,14 @@ func c02Locate(kind string, f *dst.File) []c02List {
 	case "case":
 		for _, s := range f.Decls[0].(*dst.FuncDecl).Body.List {
 			out = append(out, stmtList(&s.(*dst.SwitchStmt).Body.List))
+		}
+	case "cbody":
+		for _, cc := range f.Decls[0].(*dst.FuncDecl).Body.List[0].(*dst.SwitchStmt).Body.List[:2] {
+			out = append(out, stmtList(&cc.(*dst.CaseClause).Body))
+		}
+	case "commbody":
+		for _, cc := range f.Decls[0].(*dst.FuncDecl).Body.List[0].(*dst.SelectStmt).Body.List[:2] {
+			out = append(out, stmtList(&cc.(*dst.CommClause).Body))
 		}
 	}
 	return out
@@ -498,6 +527,21 @@ func c02Gen(r *rand.Rand, kind string, blank bool) c02Input {
 			}
 			l = append(l, c)
 		}
+		if c02ClauseBody(kind) {
+			// (the recorded finding clause-body-last-trailing-comment: the same-line comment of the
+			// statement that is last when parsed belongs to the clause, and so does a general comment
+			// after its last token)
+			l[len(l)-1].Tail = ""
+			l[len(l)-1].Gaps = nil
+			// (a comment hanging directly below the last statement, End = ["\n", "// ..."], is not
+			// generated: after an edit that leaves a statement with After: NewLine in last position an
+			// empty line appears above it -- reported separately)
+			t := ""
+			if r.Intn(3) != 0 {
+				t = fmt.Sprintf("\n\t\t// the clause %d ends here\n", k)
+			}
+			in.Tails = append(in.Tails, t)
+		}
 		in.Lists = append(in.Lists, l)
 	}
 	// edits chosen against the simulated list lengths so that most of them apply
@@ -544,7 +588,7 @@ func c02Gen(r *rand.Rand, kind string, blank bool) c02Input {
 }
 
 func c02Prop(c *Ctx) {
-	c.Res.Rule = "nine list kinds x {line-break, blank-line} separators x random chunk layouts (0-2 leading comment lines, optional trailing comment, optional inner comment, 1-4 elements per list, two lists) x random edit histories of 1-5 swap/delete/dup(Clone)/move; only gofmt-canonical sources; the print must equal gofmt of the chunk-edited source; non-trivial = distinct input with at least one applicable edit"
+	c.Res.Rule = "nine list kinds (+ qualified-identifier elements / arguments with managed imports, + the statement lists of case / comm clause bodies with nothing or an empty line and a hanging comment between the last statement and the next clause) x {line-break, blank-line} separators x random chunk layouts (0-2 leading comment lines, optional trailing comment, optional inner comment, 1-4 elements per list, two lists) x random edit histories of 1-5 swap/delete/dup(Clone)/move; only gofmt-canonical sources; the print must equal gofmt of the chunk-edited source; non-trivial = distinct input with at least one applicable edit"
 	for _, kind := range c02Kinds {
 		for _, blank := range []bool{false, true} {
 			for i := 0; i < c.N(40); i++ {
